@@ -979,3 +979,28 @@ k_chan_deliver!(k_chan_deliver_1ch_fresh, 1u8, None::<u64>);
 k_chan_deliver!(k_chan_deliver_2ch_b0, 2u8, Some(0u64));
 k_chan_deliver!(k_chan_deliver_1ch_b1, 1u8, Some(1u64));
 k_chan_deliver!(k_chan_deliver_1ch_b2, 1u8, Some(2u64));
+
+// contract (C14 / C07): a decode error must not make the reader hand out stale samples afterwards:
+// after fill_buf() failed, the next fill_buf() either fails again or delivers the block that follows the
+// samples already consumed — never the previously buffered frame.
+static G_RF_FAIL: AtomicUsize = AtomicUsize::new(0);
+fn stub_read_frame_abs_failing<R: std::io::Read>(d: &mut Decoder<R>) -> Result<Option<&Frame>, Error> {
+    if G_RF_FAIL.load(Relaxed) != 0 {
+        G_RF_FAIL.store(0, Relaxed);
+        return Err(Error::Crc16Mismatch);
+    }
+    stub_read_frame_abs(d)
+}
+
+#[kani::proof]
+#[kani::unwind(6)]
+#[kani::stub(Decoder::read_frame, stub_read_frame_abs_failing)]
+pub(crate) fn k_chan_error_no_stale() {
+    // block 0 decoded and fully consumed; the read of block 1 fails once
+    let mut r = chan_reader(1, Some(0), A_BLK);
+    G_RF_FAIL.store(1, Relaxed);
+    let first_failed = r.fill_buf().is_err();
+    vk_assert!(first_failed, "a decode error is reported");
+    let bufs = r.fill_buf().unwrap();
+    vk_assert!(!bufs[0].is_empty() && bufs[0][0] == value_at(0, A_BLK as u64), "after an error the reader continues with the next block, never with the stale frame");
+}
